@@ -1,5 +1,6 @@
 #!/bin/bash
-# usage: tools/run_seeded_scratch.sh <seed-name> <ID> [<ID>...]      (env TIER=quick|thorough)
+# usage: tools/run_seeded_scratch.sh <seed-name> <ID> [<ID>...]      (env TIER=quick|thorough, PROFILE=fast|release)
+# PROFILE=fast (default): opt-level 0, builds in ~2 min, the checks run 10-30x slower (same cases, same results).
 # Development helper (does not touch /repo): copies /repo and the harness to a scratch directory
 # under /tmp, applies the seeded change there, points the harness copy at the patched copy, builds
 # with a scratch target directory and runs the named checks with a scratch VERIF_ROOT. The scratch
@@ -16,10 +17,10 @@ rm -rf $S/harness && git -C /verif archive HEAD harness | tar -x -C $S
 sed -i "s#path = \"/repo\"#path = \"$S/repo\"#" $S/harness/Cargo.toml
 rm -rf $S/root/corpus $S/root/replays; git -C /verif archive HEAD corpus known_findings.json properties.jsonl | tar -x -C $S/root
 cd $S/harness
-if ! CARGO_NET_OFFLINE=true CARGO_TARGET_DIR=$S/target cargo build --release --offline > $S/build.log 2>&1; then echo "== $N: build failed"; tail -5 $S/build.log; exit 2; fi
+if ! CARGO_NET_OFFLINE=true CARGO_TARGET_DIR=$S/target cargo build --profile ${PROFILE:-fast} --offline > $S/build.log 2>&1; then echo "== $N: build failed"; tail -5 $S/build.log; exit 2; fi
 cd $S/root
 for id in "$@"; do
-  out=$(VERIF_ROOT=$S/root timeout 3000 $S/target/release/cv check $id ${TIER:-quick} 2>&1); rc=$?
+  out=$(VERIF_ROOT=$S/root timeout 3000 $S/target/${PROFILE:-fast}/cv check $id ${TIER:-quick} 2>&1); rc=$?
   echo "== $N $id exit=$rc $(echo "$out" | grep -E 'VIOLATION|INCONCLUSIVE' | head -2)"
   echo "$out" | grep -A4 "^failing case" | head -6
 done
